@@ -1,11 +1,11 @@
 #!/bin/bash
 # run every registered quick (or $TIER) check with the given seeds; one summary line per run
 # usage: tools/sweep.sh "2 3" [C01 C02 ...]
-cd /verif; seeds=$1; shift
+cd "$(dirname "$0")/.."; seeds=$1; shift
 props=${@:-$(python3 -c "import json;print(' '.join(c['property_id'] for c in json.load(open('MANIFEST.json'))['checks']))")}
 mkdir -p .cache/sweep
 for s in $seeds; do for p in $props; do
   ./check $p --tier ${TIER:-quick} --seed $s > .cache/sweep/$p.$s.log 2>&1; rc=$?
   echo "seed=$s $p rc=$rc $(tail -1 .cache/sweep/$p.$s.log | cut -c1-200)"
 done; done
-git -C /verif checkout -- evidence 2>/dev/null
+git checkout -- evidence 2>/dev/null
